@@ -285,6 +285,73 @@ pub fn reuse_part(deadline: &Deadline) -> Stats {
 
 /// Unusual but legal ways of consuming the iterator: `nth(k)` / `skip` / `step_by` over the curated
 /// programs, against a device that answers differently at every call, without and with one fault.
+/// The defaults sent by the constructor are those the test holds when the iterator is made:
+/// `TestCase::signals` is a public field, every input-capable signal's default is edited on a clone
+/// of the loaded test (numbers that fit, numbers that do not, Z). The constructor's call carries
+/// exactly the edited defaults, and the whole run equals that of a test loaded with them.
+pub fn edited_defaults_part(deadline: &Deadline) -> Stats {
+    use digital_test_runner as dtr;
+    let progs = programs();
+    par_range("defaults edited through the public signals field after loading: 18 curated programs x 3 editings x 2 driver variants", progs.len() as u64 * 6, deadline, |u, st| {
+        let p = &progs[(u / 6) as usize];
+        let ov = u % 2 == 0;
+        let scheme = (u / 2) % 3;
+        let prog = Program { header: p.header.iter().map(|s| s.to_string()).collect(), body: p.body.clone() };
+        let text = text(&prog);
+        let Ok(tc0) = load(&text, &p.sigs, DEFAULT_BUDGET) else { return };
+        let mut tc2 = tc0.clone();
+        let mut sigs2 = p.sigs.clone();
+        for (k, (s2, real)) in sigs2.iter_mut().zip(tc2.signals.iter_mut()).enumerate() {
+            let nv = match (scheme, k % 2) {
+                (0, 0) => V::Num(1 + k as i64),
+                (0, _) => V::Z,
+                (1, _) => V::Num(200 + 31 * k as i64), // does not fit narrow signals: passed on as it is
+                (_, 0) => V::Z,
+                (_, _) => V::Num(0),
+            };
+            let iv = match nv {
+                V::Num(n) => dtr::InputValue::Value(n),
+                _ => dtr::InputValue::Z,
+            };
+            match &mut real.typ {
+                dtr::SignalType::Input { default } => {
+                    *default = iv;
+                    s2.kind = Kind::In(nv);
+                }
+                dtr::SignalType::Bidirectional { default } => {
+                    *default = iv;
+                    s2.kind = Kind::Bidir(nv);
+                }
+                _ => {}
+            }
+        }
+        let outs: Vec<String> = p.sigs.iter().filter(|s| s.is_out()).map(|s| s.name.clone()).collect();
+        let script: Vec<Step> = (0..40usize).map(|j| Step::Ans(outs.iter().enumerate().map(|(i, n)| (n.clone(), V::Num(((j * (3 + 2 * i) + 1 + i) % 16) as i64))).collect())).collect();
+        let mut opts = RunOpts::new(24);
+        opts.continue_after_error = true;
+        let edited = run_loaded(&tc2, &sigs2, ov, &script, &opts);
+        st.evals += 1;
+        st.nontrivial += 1;
+        st.witness("defaults_edited_after_loading");
+        let want0: Vec<(String, V, bool)> = sigs2.iter().filter(|s| s.is_in()).map(|s| (s.name.clone(), s.default().unwrap_or(V::Z), false)).collect();
+        let got0 = edited.log.first().map(|c| (c.rw, c.inputs.clone()));
+        let desc = |m: String| format!("program '{}':\n{text}signals as loaded: {}\ndefaults edited to: {}\n{m}", p.name, p.sigs.iter().map(|s| s.show()).collect::<Vec<_>>().join(", "), sigs2.iter().map(|s| s.show()).collect::<Vec<_>>().join(", "));
+        if got0 != Some((true, want0.clone())) {
+            let m = format!("constructor inputs: the first call is {got0:?}, expected the output-reading call with {want0:?}");
+            st.violation("constructor inputs are not the defaults the test holds", u, desc(m.clone()), || dyn_replay(&text, &sigs2, ov, &script, &opts, vec![format!("{want0:?}")], &edited, &m));
+            return;
+        }
+        if let Ok(fresh_tc) = load(&text, &sigs2, DEFAULT_BUDGET) {
+            let fresh = run_loaded(&fresh_tc, &sigs2, ov, &script, &opts);
+            if fresh.items != edited.items || fresh.log != edited.log {
+                let k = fresh.items.iter().zip(edited.items.iter()).position(|(a, b)| a != b);
+                let m = format!("calls per row / inputs: the run of the edited test differs from the run of a test loaded with those defaults (first differing item {k:?}: {:?} vs {:?}; calls {} vs {})", k.and_then(|k| edited.items.get(k)).map(|i| i.brief()), k.and_then(|k| fresh.items.get(k)).map(|i| i.brief()), edited.log.len(), fresh.log.len());
+                st.violation("a test whose defaults were edited runs differently from one loaded with them", u, desc(m.clone()), || dyn_replay(&text, &sigs2, ov, &script, &opts, crate::compare::obs_items_brief(&fresh), &edited, &m));
+            }
+        }
+    })
+}
+
 pub fn api_use_part(deadline: &Deadline) -> Stats {
     let progs = programs();
     par_range("iterator advanced with nth(1..3): 18 curated programs x 2 driver variants x {no fault, fault at call 1..6}", progs.len() as u64 * 2 * 7, deadline, |u, st| {
